@@ -224,8 +224,15 @@ class Run(object):
             lines.append('KNOWN-FINDING: property=%s key=%s %s (%d cases)'
                          % (self.pid, key, v['what'], v['count']))
         replay_paths = []
+        rdir = os.path.join(REPLAY_DIR, self.pid)
+        if os.path.isdir(rdir):          # replays of earlier runs are stale
+            for old in os.listdir(rdir):
+                try:
+                    os.unlink(os.path.join(rdir, old))
+                except OSError:
+                    pass
         if unknown:
-            os.makedirs(os.path.join(REPLAY_DIR, self.pid), exist_ok=True)
+            os.makedirs(rdir, exist_ok=True)
         for key, v in unknown:
             name = hashlib.sha1(key.encode()).hexdigest()[:12] + '.json'
             path = os.path.join(REPLAY_DIR, self.pid, name)
